@@ -19,9 +19,30 @@ taddons.context()).  Two monitors, both at the boundary "arguments received by t
   parse_partial/execute of that text must give the same result on a fresh CommandManager that never saw the UI
   operations (no dependence on earlier operations on the same text).
 
+* prompt (enter in the console prompt): the text of a real CommandEdit (typed key by key or pre-filled with the quote-built
+  line) is handed to the real ActionBar.execute_command (statusbar.py: commands.history.add, then CommandExecutor) with the
+  real CommandHistory addon writing to a history file in a scratch confdir (option command_history on, the default).
+  Between "enter" and "execute" the history write is made to fail in every way: naturally (lone surrogates are not
+  encodable, confdir missing, history path is a directory) and by fault injection at pathlib.Path.open (OSError
+  subclasses, closed file -> ValueError, UnicodeEncodeError, RuntimeError, LookupError, failing close).  Oracle
+  unchanged: the probe receives exactly the typed arguments and nothing escapes from the enter handler.  A fixed
+  matrix (7 argument lists x 14 fault kinds) runs first on worker 0; worker 0 also starts two child processes
+  (vf/gen/c45_prompt_child.py: a real headless ConsoleMaster, console.command -> prompt -> <enter>), one in UTF-8
+  mode and one with LC_ALL=C PYTHONUTF8=0 where every non-ASCII argument makes the history write fail.
+
 A violation is classified by comparing what the probe received with a model of the known defect mechanisms
 (vf/ref/c45_cmdline.predict_defects); if the model does not reproduce the observation the mechanism is None.
 """
+import errno
+import json
+import locale
+import os
+import pathlib
+import shutil
+import subprocess
+import tempfile
+import types
+
 from mitmproxy import command
 from mitmproxy import command_lexer
 from mitmproxy import exceptions
@@ -36,15 +57,20 @@ ENGINE = "direct"
 TECHNIQUE = "differential run of the real command executor against a reference splitter / identity"
 BUDGET = {"quick": (8_000, 16), "thorough": (400_000, 200)}
 WORKERS = {"quick": 2, "thorough": 16}
-REQUIRED = ["quoted_roundtrip", "raw_split.count", "raw_split.value", "ui_history.text_preserved", "ui_history.execute", "ui_history.fresh_manager_agrees"]
+REQUIRED = ["quoted_roundtrip", "raw_split.count", "raw_split.value", "ui_history.text_preserved", "ui_history.execute", "ui_history.fresh_manager_agrees",
+            "prompt.execute", "prompt.history_write_fails_non_oserror", "prompt.history_write_fails_oserror", "prompt.history_written"]
 RULE = (
-    "case = one command line for a probe command taking *args: str (ui: also a fixed two-argument probe). 57%: 1-4 random strings (len<=8 pieces) over "
+    "case = one command line for a probe command taking *args: str (ui: also a fixed two-argument probe). 52%: 1-4 random strings (len<=8 pieces) over "
     "{letters, space, tab, CR, LF, ', \", backslash, 2-char escapes like \\n \\x22 \\u00e9, malformed \\x/\\u, e-acute, astral, "
-    "VT/NBSP/ideographic space, empty} each quoted with command_lexer.quote and joined by 1-3 blanks/tabs; 28%: raw tokens "
+    "VT/NBSP/ideographic space, empty} each quoted with command_lexer.quote and joined by 1-3 blanks/tabs; 25%: raw tokens "
     "(bare / quoted / word+quoted / unterminated) joined likewise; 15%: a quote-built line edited in a real console CommandEdit by "
     "1-8 text-preserving key-press steps (tab, shift-tab, left/right, home/end, backspace+retype, tab in the middle+retype, up / ctrl-p "
     "and down / ctrl-n walks through the real command-history addon with empty, unrelated or matching history) and then "
-    "executed from the buffer, compared also with a fresh CommandManager. distinct = (workload, #args, set of character-class "
+    "executed from the buffer, compared also with a fresh CommandManager; 8%: a typed or pre-filled prompt text (arguments incl. lone "
+    "surrogates, astral and non-ASCII text) submitted through the real ActionBar.execute_command with the history-file write failing "
+    "in one of 14 ways (none / natural UnicodeEncodeError / missing confdir / directory in the way / injected OSError subclasses, "
+    "ValueError from a closed file, UnicodeEncodeError, RuntimeError, LookupError, failing close); a fixed matrix of these and two "
+    "headless ConsoleMaster child processes (UTF-8 and C locale) run first on worker 0. distinct = (workload, #args, set of character-class "
     "features over all args, separator kind / set of key-press step kinds); non-trivial = some argument is empty or contains whitespace, a quote, a "
     "backslash or a non-ASCII character (quoted workload) / some token is quoted or mixed (raw workload)"
 )
@@ -52,6 +78,7 @@ ASSUMPTIONS = [
     "'the console's quoting rule' is mitmproxy.command_lexer.quote (what the console uses to build command lines)",
     "'unquoted whitespace' means space/tab/CR/LF outside a '...' or \"...\" region, a quote character opening a region wherever it occurs",
     "the executed command declares its arguments as str (the type used by almost all console commands)",
+    "whatever happens to the command-history file between <enter> and execution (any Exception class) must not keep the typed arguments from the command",
     "console key presses that leave the prompt text identical (completion without candidates, cursor movement, delete+retype) must not "
     "change what executing that text passes to the command",
 ]
@@ -371,15 +398,204 @@ def case_ui(ctx, r, tctx, probe):
     ctx.case(sig, nontrivial=True, sample=sample)
 
 
+# ---- prompt leg: <enter> -> ActionBar.execute_command -> commands.history.add -> CommandExecutor -----------------------
+
+FAULTS = ["none", "none", "enoent", "isdir", "os:PermissionError", "os:ENOSPC", "os:BlockingIOError", "os:InterruptedError", "closed-file",
+          "write:UnicodeEncodeError", "write:ValueError", "write:RuntimeError", "open:LookupError", "close:OSError", "close:ValueError"]
+PROMPT_MATRIX = [["plain"], ["two words", "it's"], ["\udc80"], ["a \udcff b", "x"], ["\u65e5\u672c \u8a9e"], ["\U0001f600 astral", ""], ["caf\u00e9"]]
+SURR = ["\udc80", "\udcff", "\ud800", "a\udce9b"]
+
+
+class _FaultyFile:
+    def __init__(self, when, exc):
+        self.when, self.exc = when, exc
+
+    def __enter__(self):
+        return self
+
+    def write(self, data):
+        if self.when == "write":
+            raise self.exc
+        return len(data)
+
+    def __exit__(self, *a):
+        if self.when == "close":
+            raise self.exc
+        return False
+
+
+def make_fault(kind):
+    """-> replacement for pathlib.Path.open on the history file (None = real file system)."""
+    if kind in ("none", "enoent", "isdir"):
+        return None
+    if kind == "closed-file":
+        def opener(path, *a, **kw):
+            f = open(os.devnull, "a")
+            f.close()
+            return f  # entering / writing a closed file raises ValueError
+        return opener
+    when, name = kind.split(":")
+    exc = {
+        "PermissionError": PermissionError(errno.EACCES, "Permission denied"), "ENOSPC": OSError(errno.ENOSPC, "No space left on device"),
+        "BlockingIOError": BlockingIOError(errno.EAGAIN, "Resource temporarily unavailable"), "InterruptedError": InterruptedError(errno.EINTR, "Interrupted"),
+        "UnicodeEncodeError": UnicodeEncodeError("ascii", "\u00e9", 0, 1, "ordinal not in range(128)"), "ValueError": ValueError("I/O operation on closed file."),
+        "RuntimeError": RuntimeError("history backend gone"), "LookupError": LookupError("unknown encoding: x-none"), "OSError": OSError(errno.EIO, "Input/output error"),
+    }[name]
+    if when in ("os", "open"):
+        def opener(path, *a, **kw):
+            raise exc
+        return opener
+    return lambda path, *a, **kw: _FaultyFile(when, exc)
+
+
+def expected_write_failure(kind, text):
+    """'non-oserror' | 'oserror' | None: how the history write is expected to fail (independent of mitmproxy)."""
+    if kind in ("enoent", "isdir") or kind.startswith("os:") or kind == "close:OSError":
+        return "oserror"
+    if kind != "none":
+        return "non-oserror"
+    try:
+        (text + "\n").encode(locale.getencoding())
+    except UnicodeEncodeError:
+        return "non-oserror"
+    return None
+
+
+def prompt_submit(tctx, probe, confroot, text, kind):
+    """Run the real enter handler of the console prompt on text with the given history fault. -> (received|None, escaped exception|None)"""
+    from mitmproxy.tools.console import statusbar
+
+    ch = HISTORY["addon"]
+    okdir = os.path.join(confroot, "ok")
+    hist = os.path.join(okdir, "command_history")
+    if os.path.isfile(hist):
+        os.unlink(hist)
+    confdir = {"enoent": os.path.join(confroot, "missing", "dir"), "isdir": os.path.join(confroot, "isdir")}.get(kind, okdir)
+    ch.history = []
+    ch.set_filter("")
+    tctx.options.update(command_history=True, confdir=confdir)
+    opener = make_fault(kind)
+    orig_open = pathlib.Path.open
+    if opener is not None:
+        def patched(self, *a, **kw):
+            if self.name == "command_history":
+                return opener(self, *a, **kw)
+            return orig_open(self, *a, **kw)
+        pathlib.Path.open = patched
+    probe.calls.clear()
+    escaped = None
+    try:
+        try:
+            statusbar.ActionBar.execute_command(types.SimpleNamespace(master=tctx.master), text)
+        except Exception as e:  # noqa -- anything escaping the enter handler
+            escaped = e
+    finally:
+        pathlib.Path.open = orig_open
+        tctx.options.update(command_history=False)
+    written = os.path.isfile(hist) and os.path.getsize(hist) > 0
+    if os.path.isfile(hist):
+        os.unlink(hist)
+    received = tuple(probe.calls[0]) if len(probe.calls) == 1 else None
+    return received, escaped, written, len(probe.calls)
+
+
+def prompt_case(ctx, tctx, probe, confroot, args, kind, typed, sep=" "):
+    from mitmproxy.tools.console.commander import commander
+
+    line = sep.join(command_lexer.quote(x) for x in ["probe.cmd", *args])
+    if typed:
+        edit = commander.CommandEdit(tctx.master, "")
+        for ch_ in line:
+            edit.keypress(SIZE, ch_)
+    else:
+        edit = commander.CommandEdit(tctx.master, line)
+    text = edit.get_edit_text()
+    if text != line:
+        ctx.violation("prompt-typed-text-differs", {"line": line, "text": text, "typed": typed}, None)
+        return
+    received, escaped, written, ncalls = prompt_submit(tctx, probe, confroot, text, kind)
+    ctx.count("prompt.execute")
+    exp = expected_write_failure(kind, text)
+    ctx.count({"non-oserror": "prompt.history_write_fails_non_oserror", "oserror": "prompt.history_write_fails_oserror", None: "prompt.history_write_expected_ok"}[exp])
+    if written:
+        ctx.count("prompt.history_written")
+    extra = {"history_fault": kind, "typed": typed}
+    if escaped is not None:
+        ctx.violation("prompt-enter-raises", {"line": line, "args": args, "exc": repr(escaped)[:300], "command_called": ncalls, **extra}, None)
+        return
+    # CommandExecutor logs a CommandError instead of raising it: no call then means "execution failed"
+    exc = None if ncalls else exceptions.CommandError("(logged by CommandExecutor)")
+    if ncalls > 1:
+        ctx.violation("prompt-command-called-twice", {"line": line, "calls": ncalls, **extra}, None)
+        return
+    judge(ctx, "prompt", text, list(args), received, exc, extra=extra)
+
+
+def prompt_children(ctx):
+    """Worker 0: real headless ConsoleMaster in child processes under a UTF-8 and a legacy (C) locale."""
+    from vf.core import PY, REPO, ROOT
+
+    base = {k: v for k, v in os.environ.items() if not k.startswith("LC_") and k not in ("LANG", "LANGUAGE")}
+    base.update(PYTHONPATH=f"{ROOT}:{REPO}", PYTHONDONTWRITEBYTECODE="1", PYTHONCOERCECLOCALE="0")
+    procs = []
+    for name, env in (("utf8", {"PYTHONUTF8": "1", "LC_ALL": "C.UTF-8"}), ("c-locale", {"PYTHONUTF8": "0", "LC_ALL": "C", "LANG": "C"})):
+        procs.append((name, subprocess.Popen([PY, "-m", "vf.gen.c45_prompt_child"], cwd=REPO, env={**base, **env}, stdout=subprocess.PIPE, stderr=subprocess.DEVNULL, text=True, encoding="ascii", errors="replace")))
+    for name, p in procs:
+        try:
+            out, _ = p.communicate(timeout=90)
+            payload = [ln for ln in out.splitlines() if ln.startswith("C45PROMPT ")]
+            results = json.loads(payload[-1].split(" ", 1)[1])
+        except (subprocess.TimeoutExpired, IndexError, ValueError):
+            p.kill()
+            ctx.count(f"prompt_console.{name}.inconclusive")
+            continue
+        for rec in results:
+            ctx.count("prompt_console.execute")
+            ctx.count(f"prompt_console.{name}")
+            if not rec["encodable"] and rec["variant"] == "ok":
+                ctx.count("prompt.history_write_fails_non_oserror")
+            elif rec["variant"] != "ok":
+                ctx.count("prompt.history_write_fails_oserror")
+            ok = rec["raised"] is None and rec["received"] == rec["args"] and rec.get("prompt_text_ok")
+            if not ok:
+                ctx.violation("prompt_console-argument-lost", {"locale": name, **rec}, None)
+            ctx.seen("prompt_console_locales", rec["locale_encoding"])
+
+
 def run(ctx):
     tctx, cm, probe = make_manager()
+    confroot = tempfile.mkdtemp(prefix="c45-conf-")
+    os.makedirs(os.path.join(confroot, "ok"))
+    os.makedirs(os.path.join(confroot, "isdir", "command_history"))
     try:
+        if ctx.worker == 0 and ctx.only_case is None:
+            ctx.guard(prompt_children, ctx, what="console prompt child processes")
+            for args in PROMPT_MATRIX:  # fixed matrix first
+                for kind in FAULTS[1:]:
+                    ctx.guard(prompt_case, ctx, tctx, probe, confroot, args, kind, False, what=f"prompt matrix {kind}")
+                    ctx.count("prompt.fixed_matrix")
         for i in ctx.cases():
             r = ctx.rng
             wl = r.random()
-            if wl < 0.15:
+            if wl < 0.08:
+                def parg():
+                    k = r.random()
+                    if k < 0.3:
+                        return "".join(r.choice(PLAIN + [" ", "'", '"'] + SURR) for _ in range(r.choice([1, 2, 4])))
+                    if k < 0.5:
+                        return "".join(r.choice(["\u65e5", "\u672c", " ", "\U0001f600", "\u00e9", "\u00df", "a", "\udc80"]) for _ in range(r.choice([1, 2, 4])))
+                    return "".join(r.choice(PLAIN + [" ", "'", '"']) for _ in range(r.choice([0, 1, 2, 4])))
+
+                args = [parg() for _ in range(r.choice([1, 1, 2, 3]))]
+                kind = r.choice(FAULTS)
+                typed = r.random() < 0.5
+                ctx.guard(prompt_case, ctx, tctx, probe, confroot, args, kind, typed, " " if r.random() < 0.8 else gen_sep(r), what="prompt")
+                f = set().union(*(features(a) for a in args))
+                surr = any(0xD800 <= ord(c) <= 0xDFFF for a in args for c in a)
+                ctx.case(("prompt", kind, typed, surr, tuple(sorted(f & {"empty", "sp", "sq", "dq", "uni", "astral"}))), nontrivial=True, sample={"args": args, "history_fault": kind, "typed": typed})
+            elif wl < 0.23:
                 case_ui(ctx, r, tctx, probe)
-            elif wl < 0.72:
+            elif wl < 0.75:
                 args = [gen_string(r) for _ in range(r.choice([1, 1, 2, 2, 3, 4]))]
                 seps = [gen_sep(r) for _ in args]
                 line = "probe.cmd" + "".join(s + command_lexer.quote(a) for s, a in zip(seps, args))
@@ -419,4 +635,5 @@ def run(ctx):
                 sepk = "tab" if any("\t" in s for s in seps) else ("multi" if any(len(s) > 1 for s in seps) else "one")
                 ctx.case(("raw", len(toks), kinds, tuple(sorted(f - {"sq", "dq", "both"})), sepk), nontrivial=kinds != ("bare",), sample={"line": line, "expected": expected, "received": received})
     finally:
+        shutil.rmtree(confroot, ignore_errors=True)
         tctx.__exit__(None, None, None)
